@@ -74,6 +74,9 @@ func classify(stack string, rec string) int {
 		if strings.Contains(rec, "index out of range [1]") {
 			return siteTCPOpt
 		}
+		if strings.Contains(rec, "index out of range") && !strings.Contains(rec, "index out of range [12]") && !strings.Contains(rec, "index out of range [13]") {
+			return siteUnknown // some other index expression of the parser
+		}
 		return siteTCPShort
 	case has("arp.(*Frame).Unmarshal"):
 		return siteARP
@@ -490,7 +493,51 @@ type HistIn struct {
 	Rep    int    `json:"rep"`
 	Frames []hx.B `json:"frames"` // the last one is the probe
 	Probe  UEvent `json:"probe"`
-	Note   string `json:"note,omitempty"`
+	// Steps: per-frame directions for connection histories (frame index -> wait before
+	// sending; set the TCP acknowledgment number to ISS+AckRel of the connection the
+	// frame belongs to, read from the state table through the hook)
+	Steps []Step `json:"steps,omitempty"`
+	Note  string `json:"note,omitempty"`
+}
+
+type Step struct {
+	Idx    int  `json:"idx"`
+	WaitMs int  `json:"wait_ms,omitempty"`
+	SetAck bool `json:"set_ack,omitempty"`
+	AckRel int  `json:"ack_rel,omitempty"`
+}
+
+const siteHang = 11 // a frame was not processed within the bounded wait: the listener stopped making progress
+
+// prepare applies the step (if any) for frame idx and returns the bytes to send
+func prepare(v *canary.VerifCanary, in HistIn, idx int, f []byte) []byte {
+	for _, st := range in.Steps {
+		if st.Idx != idx {
+			continue
+		}
+		if st.WaitMs > 0 {
+			time.Sleep(time.Duration(st.WaitMs) * time.Millisecond)
+		}
+		if st.SetAck && len(f) >= 14+20+20 {
+			src := net.IPv4(f[26], f[27], f[28], f[29])
+			dst := net.IPv4(f[30], f[31], f[32], f[33])
+			sport := uint16(f[34])<<8 | uint16(f[35])
+			dport := uint16(f[36])<<8 | uint16(f[37])
+			deadline := time.Now().Add(time.Second)
+			for {
+				if si := v.State(src, dst, sport, dport); si != nil {
+					g := append([]byte(nil), f...)
+					copy(g[14+20+8:], be32(si.ISS+uint32(st.AckRel)))
+					return g
+				}
+				if time.Now().After(deadline) {
+					break
+				}
+				time.Sleep(200 * time.Microsecond)
+			}
+		}
+	}
+	return f
 }
 
 type HistObs struct {
@@ -629,26 +676,54 @@ func runInject(in HistIn) HistObs {
 	}
 	start := time.Now()
 	idx := 0
-	one := func(f []byte) bool {
-		ret := int64(0)
-		func() {
-			defer func() {
-				if rec := recover(); rec != nil {
-					ret = 2
-					ob.Fatal = classify(string(debug.Stack()), fmt.Sprint(rec))
-					ob.FatalAt = idx
-				}
-			}()
-			if err := v.Inject(f); err != nil {
-				ret = 1
+	conn := len(in.Steps) > 0 // connection history: reader goroutines transmit concurrently, the ring is not drained per frame
+	if conn {
+		ob.Tx = -1
+	}
+	inject := func(f []byte) (ret int64, fatal int) {
+		defer func() {
+			if rec := recover(); rec != nil {
+				ret = 2
+				fatal = classify(string(debug.Stack()), fmt.Sprint(rec))
 			}
 		}()
+		if err := v.Inject(f); err != nil {
+			ret = 1
+		}
+		return
+	}
+	one := func(f []byte) bool {
+		var ret int64
+		var fatal int
+		if in.Rep > 0 {
+			ret, fatal = inject(f)
+		} else {
+			// bounded wait: a handler that blocks (e.g. on a channel nobody reads) stops the
+			// whole receive loop in the real listener
+			done := make(chan struct{})
+			go func() {
+				ret, fatal = inject(f)
+				close(done)
+			}()
+			select {
+			case <-done:
+			case <-time.After(hangWait):
+				ob.Fatal, ob.FatalAt = siteHang, idx
+				ob.Rets = append(ob.Rets, 3)
+				return false
+			}
+		}
+		if fatal != 0 {
+			ob.Fatal, ob.FatalAt = fatal, idx
+		}
 		if in.Rep == 0 {
 			ob.Rets = append(ob.Rets, ret)
 		}
 		idx++
-		if n := len(v.DrainTx()); in.Rep == 0 {
-			ob.Tx += n
+		if !conn {
+			if n := len(v.DrainTx()); in.Rep == 0 {
+				ob.Tx += n
+			}
 		}
 		return ret != 2
 	}
@@ -663,10 +738,11 @@ func runInject(in HistIn) HistObs {
 	if in.Rep > 0 {
 		rest = in.Frames[1:]
 	}
-	for _, f := range rest {
+	for i, f := range rest {
 		if !alive {
 			break
 		}
+		f = prepare(v, in, i, f)
 		ob.Times = append(ob.Times, time.Since(start).Milliseconds())
 		alive = one(f)
 	}
@@ -732,7 +808,8 @@ func childMain(path string) {
 		}
 		rest = in.Frames[1:]
 	}
-	for _, f := range rest {
+	for i, f := range rest {
+		f = prepare(v, in, i, f)
 		ob.Times = append(ob.Times, time.Since(start).Milliseconds())
 		write(f)
 	}
@@ -758,6 +835,8 @@ func childMain(path string) {
 	fmt.Printf("\nC02-CHILD-RESULT %s\n", out)
 	os.Exit(0)
 }
+
+const hangWait = 2 * time.Second
 
 var reGoroutineFn = regexp.MustCompile(`(?m)^([A-Za-z0-9_./\-]+\.[A-Za-z0-9_.()*]+)\(`)
 
@@ -1124,9 +1203,11 @@ func main() {
 		Part  string   `json:"part"`
 		Parse *ParseIn `json:"parse,omitempty"`
 		Hist  *HistIn  `json:"hist,omitempty"`
+		Table *TableIn `json:"table,omitempty"`
 	}
 	var pins []ParseIn
 	var hins []HistIn
+	var tins []TableIn
 	if o.Only != "" {
 		var in replayIn
 		if err := hx.LoadReplay(o.Only, &in); err != nil {
@@ -1138,17 +1219,39 @@ func main() {
 		if in.Hist != nil {
 			hins = []HistIn{*in.Hist}
 		}
+		if in.Table != nil {
+			tins = []TableIn{*in.Table}
+		}
 	} else {
 		pins = genParse(r, o.Tier)
 		hins = append(hins, corpusHists("inject")...)
 		hins = append(hins, corpusHists("loop")...)
-		nh := 220
+		nh := 200
 		nloop := 6
+		nconn, nconnLoop := 60, 6
+		ntsmall, ntfull := 80, 4
 		switch o.Tier {
 		case "thorough":
 			nh, nloop = 2500, 40
+			nconn, nconnLoop = 600, 40
+			ntsmall, ntfull = 800, 16
 		case "search":
 			nh, nloop = 1200, 12
+			nconn, nconnLoop = 300, 12
+			ntsmall, ntfull = 400, 8
+		}
+		hins = append(hins, corpusConn("inject", 1), corpusConn("loop", 2))
+		for i := 0; i < nconn; i++ {
+			hins = append(hins, genConn(r, i, "inject"))
+		}
+		for i := 0; i < nconnLoop; i++ {
+			hins = append(hins, genConn(r, 50000+i, "loop"))
+		}
+		for v := 0; v < ntfull; v++ {
+			tins = append(tins, genTableFull(r, v%4))
+		}
+		for i := 0; i < ntsmall; i++ {
+			tins = append(tins, genTableSmall(r))
 		}
 		for i := 0; i < nh; i++ {
 			hins = append(hins, genHist(r, i, "inject"))
@@ -1158,6 +1261,9 @@ func main() {
 		}
 		// connection floods: below the table size in every tier (cheap), beyond it in the thorough tier
 		hins = append(hins, floodHist("inject", 300, 1))
+		// one more SYN than slots through the real handlers in every tier (child process,
+		// runs beside everything else)
+		hins = append(hins, floodHist("inject", tableCap+3, 5))
 		if o.Tier == "thorough" {
 			hins = append(hins, floodHist("inject", 70000, 2), floodHist("loop", 70000, 3), floodHist("loop", 65535, 4))
 		}
@@ -1185,15 +1291,44 @@ func main() {
 	// part "hist"
 	hdist := map[string]int{}
 	var hcases []hx.Case
+	// child-process cases run beside the in-process ones
+	hobs := make([]HistObs, len(hins))
+	hcrash := make([]string, len(hins))
+	var wg sync.WaitGroup
+	sem := make(chan struct{}, 6)
+	isChild := func(in HistIn) bool { return in.Mode == "loop" || in.Rep > 1000 }
+	for i := range hins {
+		if isChild(hins[i]) {
+			wg.Add(1)
+			go func(i int) {
+				defer wg.Done()
+				sem <- struct{}{}
+				hobs[i], hcrash[i] = runChild(hins[i], o.Out, i)
+				<-sem
+			}(i)
+		}
+	}
+	// table histories (in-process, independent tables) also run beside
+	tobs := make([]TableObs, len(tins))
+	tsem := make(chan struct{}, 4)
+	for i := range tins {
+		wg.Add(1)
+		go func(i int) {
+			defer wg.Done()
+			tsem <- struct{}{}
+			tobs[i] = runTable(tins[i])
+			<-tsem
+		}(i)
+	}
+	for i := range hins {
+		if !isChild(hins[i]) {
+			hobs[i] = runInject(hins[i])
+		}
+	}
+	wg.Wait()
 	for i := range hins {
 		in := hins[i]
-		var ob HistObs
-		crash := ""
-		if in.Mode == "loop" || in.Rep > 1000 {
-			ob, crash = runChild(in, o.Out, i)
-		} else {
-			ob = runInject(in)
-		}
+		ob, crash := hobs[i], hcrash[i]
 		hdist["mode:"+in.Mode]++
 		hdist[fmt.Sprintf("routes:%d", len(in.Routes))]++
 		hdist[fmt.Sprintf("arp-entries:%d", len(in.Arp))]++
@@ -1213,12 +1348,34 @@ func main() {
 		kind := "hist-" + in.Mode
 		if in.Rep > 0 {
 			kind = "flood-" + in.Mode
+		} else if len(in.Steps) > 0 {
+			kind = "conn-" + in.Mode
+			hdist["connection-histories"]++
 		}
 		hcases = append(hcases, hx.Case{ID: i, Kind: kind, Input: replayIn{Part: "hist", Hist: &hins[i]}, Obs: ob, Crash: crash, Coq: coqHist(i, in, ob)})
 	}
 	if len(hins) > 0 || o.Only == "" {
 		hx.Write(o, "C02", "hist", "From HT Require Import Common.Bytes C02.Model C02.Check.\n"+
 			"Definition case := hcase.\nDefinition mismatches := h_mismatches.\nDefinition violations := h_violations.\nDefinition tags := h_tags.",
-			"case", hcases, hdist, nil, 60)
+			"case", hcases, hdist, nil, 40)
+	}
+
+	// part "table"
+	tdist := map[string]int{}
+	var tcases []hx.Case
+	for i := range tins {
+		ob := tobs[i]
+		note := tins[i].Note
+		tdist["kind:"+note]++
+		tdist["ops"] += len(tins[i].Ops)
+		if ob.PanicAt >= 0 {
+			tdist["panic"]++
+		}
+		tcases = append(tcases, hx.Case{ID: i, Kind: "table-" + note, Input: replayIn{Part: "table", Table: &tins[i]}, Obs: ob, Coq: coqTable(i, tins[i], ob)})
+	}
+	if len(tins) > 0 || o.Only == "" {
+		hx.Write(o, "C02", "table", "From HT Require Import Common.Bytes C02.Model C02.Check.\n"+
+			"Definition case := tcase.\nDefinition mismatches := t_mismatches.\nDefinition violations := t_violations.\nDefinition tags := t_tags.",
+			"case", tcases, tdist, nil, 30)
 	}
 }
